@@ -5,22 +5,22 @@
 
 /* ---------------------------------------------------------------- c3d::hex2uint */
 unsigned int contract_c3d__hex2uint(struct c3d *self, const char *val, unsigned int len)
-__CPROVER_requires(vf_exc == 0 && len <= 4 && __CPROVER_r_ok(val, len ? len : 1))
+__CPROVER_requires(vf_exc == 0 && len <= 512 && __CPROVER_r_ok(val, len ? len : 1))
 /*@ C12 C02 : hex2uint.len0 */ __CPROVER_ensures(len == 0 ==> __CPROVER_return_value == 0)
 /*@ C12 C02 : hex2uint.len1 */ __CPROVER_ensures(len == 1 ==> __CPROVER_return_value == VF_U8(val, 0))
 /*@ C12 C02 : hex2uint.len2 */ __CPROVER_ensures(len == 2 ==> __CPROVER_return_value == VF_U16(val, 0))
 /*@ C12 C02 : hex2uint.len3 */ __CPROVER_ensures(len == 3 ==> __CPROVER_return_value == (VF_U16(val, 0) | (VF_U8(val, 2) << 16)))
-/*@ C12 C02 : hex2uint.len4 */ __CPROVER_ensures(len == 4 ==> __CPROVER_return_value == VF_U32(val, 0))
+/*@ C12 C02 : hex2uint.len4 */ __CPROVER_ensures(len >= 4 ==> __CPROVER_return_value == VF_U32(val, 0)) /* wider (reserved) fields: their 4 low-order bytes */
 /*@ C12 C10 : hex2uint.nothrow */ __CPROVER_ensures(vf_exc == 0)
 __CPROVER_assigns();
 
 
 /* ---------------------------------------------------------------- c3d::hex2int (callee hex2uint by contract) */
 int contract_c3d__hex2int(struct c3d *self, const char *val, unsigned int len)
-__CPROVER_requires(vf_exc == 0 && (len == 1 || len == 2 || len == 4) && __CPROVER_r_ok(val, len))
+__CPROVER_requires(vf_exc == 0 && (len == 1 || len == 2 || (len >= 4 && len <= 512)) && __CPROVER_r_ok(val, len))
 /*@ C12 C02 C17 : hex2int.int8 */ __CPROVER_ensures(len == 1 ==> __CPROVER_return_value == (int)(signed char)val[0])
 /*@ C12 C02 C17 : hex2int.int16 */ __CPROVER_ensures(len == 2 ==> __CPROVER_return_value == (int)(short)(unsigned short)VF_U16(val, 0))
-/*@ C12 C02 : hex2int.int32 */ __CPROVER_ensures(len == 4 ==> __CPROVER_return_value == (int)VF_U32(val, 0))
+/*@ C12 C02 : hex2int.int32 */ __CPROVER_ensures(len >= 4 ==> __CPROVER_return_value == (int)VF_U32(val, 0))
 /*@ C12 : hex2int.nothrow */ __CPROVER_ensures(vf_exc == 0)
 __CPROVER_assigns();
 
